@@ -21,6 +21,8 @@ EXPLANATION = 'R16.1 loop progress; R16.2 inputs not mutated; R16.3 geometry/mas
 
 TECHNIQUE += '; build_from_world from parents whose layers are placed by thickness / by the world radius, the derived configuration run through find_geometry_from_config layer by layer'
 
+EXPLANATION += ' R16.8 the world-level slice arrays are the layers\' arrays laid end to end in stacking order for unequal slice counts.'
+
 def run(chk):
     repo = Repo(chk.repo)
     # ------------------------------------------------------------------ R16.1
@@ -244,6 +246,7 @@ def run(chk):
     derivation_mass(chk, repo, mw, d)
     layer_order(chk, repo)
     shipped_configs(chk)
+    world_slices(chk, repo)
     chk.floor('R16.1', 5); chk.floor('R16.2', 5); chk.floor('R16.3', 30); chk.floor('R16.4', 50)
     chk.assume('radius > thickness > 0, masses > 0')
 
@@ -384,7 +387,8 @@ def reinit_mass(repo, cfgd, layer_masses, glob_hook=None):
 
     def setgeo(*args, **kwargs):
         seen['args'] = args; seen['kwargs'] = kwargs
-    lays = tuple(Obj(name=f'L{i}', attrs={'mass': layer_masses[i], 'is_tidal': False, 'tidal_scale': X.ZERO, 'reinit': (lambda *a_, **k_: None), **{q: Opaque(q) for q in
+    lays = tuple(Obj(name=f'L{i}', attrs={'mass': layer_masses[i], 'is_tidal': False, 'tidal_scale': X.ZERO, 'reinit': (lambda *a_, **k_: None), 'num_slices': 1, 'N': 1,
+                 **{q: Vec([X.atom(f'{q}_L{i}', 'pos')]) for q in
                  ('radii', 'volume_slices', 'sa_slices', 'depths', 'mass_slices', 'mass_below_slices', 'density_slices', 'gravity_slices')}}) for i in range(len(layer_masses)))
     cfgd.setdefault('layers', {})
     wobj = Obj(cls=('class', mlw, wcls), name='world', attrs={'config': cfgd, '_config': cfgd, 'layers': lays, '_layers': lays, '__iter__': lays, 'set_geometry': setgeo,
@@ -400,6 +404,55 @@ def reinit_mass(repo, cfgd, layer_masses, glob_hook=None):
         raise AnalysisError(f'LayeredWorld.reinit could not be interpreted on the abstract world: {ex}')
     return seen.get('args', (None, None))[1] if len(seen.get('args', ())) > 1 else seen.get('kwargs', {}).get('mass')
 
+
+
+def world_slices(chk, repo):
+    """R16.8 the world-level slice arrays of a LayeredWorld are the layers' arrays laid end to end in stacking order, whatever the layers' slice counts (layers may be given
+    different numbers of slices): strictly increasing radii and a non-decreasing enclosed mass of the world rest on that.  LayeredWorld.reinit is interpreted on stub layers
+    holding 2, 3 and 1 slices of distinct symbols."""
+    from ..core.interp import Vec, Arr as _Arr
+    mlw = repo.by_path('TidalPy/structures/world_types/layered.py')
+    wcls = need_class(mlw, 'LayeredWorld')
+    wre = methods(wcls).get('reinit')
+    if wre is None: raise AnalysisError('LayeredWorld.reinit vanished')
+    names = ('radii', 'volume_slices', 'sa_slices', 'depths', 'mass_slices', 'mass_below_slices', 'density_slices', 'gravity_slices')
+
+    def expr_hook2(itp, e, fr):
+        if isinstance(e, ast.Call) and isinstance(e.func, ast.Attribute) and isinstance(e.func.value, ast.Call) and isinstance(e.func.value.func, ast.Name) and e.func.value.func.id == 'super':
+            return Opaque('parent reinit')
+        return NotImplemented
+    for counts, lab in (((2, 3, 1), 'layers with 2, 3 and 1 slices'), ((1, 2, 3), 'layers with 1, 2 and 3 slices'), ((2, 2, 2), 'layers with 2 slices each')):
+        lays = tuple(Obj(name=f'L{i}', attrs={'mass': X.atom(f'mass_L{i}', 'pos'), 'is_tidal': False, 'tidal_scale': X.ZERO, 'reinit': (lambda *a_, **k_: None), 'num_slices': n_, 'N': n_,
+                                              **{q: Vec([X.atom(f'{q}_L{i}[{k}]', 'pos') for k in range(n_)]) for q in names}}) for i, n_ in enumerate(counts))
+        cfgd = {'layers': {}, 'radius': X.atom('R_world', 'pos'), 'name': 'world', 'type': 'layered'}
+        wobj = Obj(cls=('class', mlw, wcls), name='world', attrs={'config': cfgd, '_config': cfgd, 'layers': lays, '_layers': lays, '__iter__': lays, 'set_geometry': (lambda *a_, **k_: None),
+                   'set_static_pressure': (lambda *a_, **k_: None), 'pressure_above': X.ZERO, 'tides_on': False, '_tides_on': False, '_mass': None, '_radius': None, '_volume': None, '_name': 'world', 'name': 'world',
+                   'num_layers': len(lays), '_num_layers': len(lays)})
+        it5 = Interp(repo, hooks={'expr': expr_hook2, 'branch': (lambda itp, st, v, fr: (False if isinstance(v, Opaque) else None))}, max_depth=6)
+        bad = []
+        try:
+            it5.call(mlw, wre, [], {'initial_init': True, 'reinit_geometry': True}, self_obj=wobj)
+        except RaiseSignal as ex:
+            bad.append(f'reinit raises {ex.text[:100]}')
+        except AnalysisError as ex:
+            raise AnalysisError(f'LayeredWorld.reinit on {lab}: {ex}')
+        if not bad:
+            for q in names:
+                got = wobj.attrs.get('_' + q)
+                want = [lay.attrs[q][k] for lay in lays for k in range(len(lay.attrs[q]))]
+                if isinstance(got, _Arr):
+                    n_ = got.shape[0] if got.shape else None
+                    try:
+                        got = [got.get(k) for k in range(n_)] if isinstance(n_, int) else None
+                    except AnalysisError:
+                        got = 'unset'
+                if got == 'unset' or not isinstance(got, (list, Vec)) or len(got) != len(want) or any(a_ is not b_ for a_, b_ in zip(got, want)):
+                    bad.append(f'world.{q} is not the layers\' {q} laid end to end' + (' (elements left unset)' if got == 'unset' else ''))
+            ns = wobj.attrs.get('_num_slices')
+            if ns != sum(counts): bad.append(f'num_slices = {ns}, the layers hold {sum(counts)}')
+        chk.ob('R16.8', f'LayeredWorld.reinit, {lab}: every world-level slice array is the layers\' arrays laid end to end in stacking order', not bad, '; '.join(bad[:3]), mlw.where(wre),
+               key=f'R16.8|{lab}', method='interpretation of LayeredWorld.reinit on stub layers with arrays of distinct symbols')
+    chk.floor('R16.8', 3)
 
 
 def enclosing_func(tree, node):
